@@ -119,6 +119,10 @@ func HC03_e2e() {
 			"type base struct {\n\tCreatedBy string\n\tRevision int `json:\"rev\"`\n}\n\ntype Meta struct{ Tags []string }\n\ntype Doc struct {\n\tbase\n\tMeta\n\tTitle string `json:\"title\"`\n\tskip int\n\tHidden int `json:\"-\"`\n}\n\ntype Top struct{ D Doc }\n",
 			[]c03Expect{{"Top.D", "CreatedBy", "string"}, {"Top.D", "rev", "Int"}, {"Top.D", "Tags", "string[]|null"}, {"Top.D", "title", "string"}},
 		},
+		{ // two types whose names differ only by case, an enum and a struct among them
+			"type Order struct{ N int }\n\ntype order struct{ S string }\n\ntype Kind int\n\nconst (\n\tK0 Kind = iota\n\tK1\n)\n\ntype kind struct{ B bool }\n\ntype Top struct {\n\tA Order\n\tB order\n\tC Kind\n\tD kind\n}\n",
+			[]c03Expect{{"Top.A", "N", "Int"}, {"Top.B", "S", "string"}, {"Top.D", "B", "boolean"}},
+		},
 	}
 	e := catalogue[vfChoice("package", len(catalogue))]
 	src := "package p\n\n" + e.src
